@@ -22,15 +22,21 @@ CTX_KEYS = ['client_ip', 'client_port', 'server_host', 'server_port', 'connectio
             'request_path', 'request_bytes', 'request_ua', 'request_version', 'response_bytes', 'response_code',
             'response_reason']
 
-EXC = {'ValueError': 1, 'KeyError': 3, 'AssertionError': 4, 'TypeError': 7, 'OSError': 200, 'HttpProtocolException': 100}
+EXC = {'ValueError': 1, 'KeyError': 3, 'AssertionError': 4, 'TypeError': 7, 'OSError': 200, 'HttpProtocolException': 100,
+       'ConnectionResetError': 200, 'BrokenPipeError': 200, 'TimeoutError': 200}
 COQ_EXN = {'ValueError': 'ValueError', 'KeyError': 'KeyError', 'AssertionError': 'AssertionError', 'TypeError': 'TypeError',
-           'OSError': '(OSError 0)', 'HttpProtocolException': '(HttpProtocolException 0)'}
+           'OSError': '(OSError 0)', 'HttpProtocolException': '(HttpProtocolException 0)',
+           # the OSError subclasses a hook may raise (errno as the model's tag; TimeoutError('..') carries no errno)
+           'ConnectionResetError': '(OSError 104)', 'BrokenPipeError': '(OSError 32)', 'TimeoutError': '(OSError 110)'}
+OSERRORS = ['ConnectionResetError', 'BrokenPipeError', 'TimeoutError', 'OSError']
 
 
 def mk_exc(name):
     from proxy.http.exception import HttpProtocolException
     return {'ValueError': ValueError('boom'), 'KeyError': KeyError('boom'), 'AssertionError': AssertionError('boom'),
             'TypeError': TypeError('boom'), 'OSError': OSError(5, 'boom'),
+            'ConnectionResetError': ConnectionResetError(104, 'boom'), 'BrokenPipeError': BrokenPipeError(32, 'boom'),
+            'TimeoutError': TimeoutError('boom'),
             'HttpProtocolException': HttpProtocolException('boom')}[name]
 
 
@@ -791,6 +797,68 @@ def rand_act(rng, kinds, lifecycle=False):
         return ['after', rng.choice([1, 1, 2]), rand_act(rng, [x for x in kinds if x != 'after'], lifecycle),
                 rand_act(rng, [x for x in kinds if x != 'after'], lifecycle)]
     raise ValueError(k)
+
+
+def served_request(rng, method=None, auth_line=None):
+    """a request whose port is dialable (1..65535), so that the upstream connect happens"""
+    while True:
+        s = mk_request(rng, method=method, auth_line=auth_line)
+        if 0 < s['port'] <= 65535:
+            return s
+
+
+DRAIN_ENDINGS = ['client_eof', 'shutdown', 'upstream_eof', 'client_reset', 'upstream_reset']
+DRAIN_HOOKS = ['hcr_later', 'hcr_first', 'hcr_same', 'hcd', 'buc']
+
+
+def gen_oserror_drain(rng, quick, auth=False):
+    """The THREE ways a failing hook ends the reading under handle_data, side by side on the same histories:
+    an OSError (ConnectionResetError / BrokenPipeError / TimeoutError / plain OSError: caught by
+    HttpProtocolHandler.handle_readables -> reads_teared: the upstream is no longer read either), a rejection
+    (handle_data returns True -> must_flush_before_shutdown: upstream data still relayed while the response drains) and
+    another exception (escapes) - raised by handle_client_request (first request / a later request / a second request in
+    the same segment), handle_client_data (no upstream) and before_upstream_connection; where the history allows it with
+    output PENDING for the client (an unflushed or partly flushed response chunk) and upstream data, client data and
+    flushes arriving AFTERWARDS.  Every (hook, action) pair occurs on every run (quick tier: once)."""
+    out = []
+    code_line = b'Proxy-Authorization: Basic dXNlcjpwYXNz' if auth else None
+    resp = b'HTTP/1.1 200 OK\r\nContent-Length: 2\r\n\r\nok'
+    acts = [['raise', x] for x in OSERRORS] + [['reject', 403, b'No', b'denied'], ['raise', 'ValueError']]
+    grid = [(h, a) for h in DRAIN_HOOKS for a in acts]
+    for hook, act in grid * (1 if quick else 8):
+        names = pick_names(rng, 2)
+        rec = mk_table(2, name=names[1], huc=rng.choice([['pass'], ['pass'], ['modify', b'u2']]))
+        s1 = served_request(rng, method=rng.choice([b'GET', b'POST', b'GET']), auth_line=code_line)
+        s2 = served_request(rng, method=rng.choice([b'GET', b'HEAD']), auth_line=code_line if rng.random() < 0.5 else None)
+        steps = [['first', s1, True, segments(rng, wire(s1))]]
+        if hook == 'hcr_later':
+            t1 = mk_table(1, name=names[0], hcr=['after', 1, ['pass'], act])
+            steps.append(['upstream', resp])                      # pending for the client
+            if rng.random() < 0.5:
+                steps.append(['flush', rng.choice([1, 7, 'block'])])     # partly flushed: still pending
+            steps.append(['client', wire(s2), s2])                # the hook raises here
+        elif hook == 'hcr_first':
+            t1 = mk_table(1, name=names[0], hcr=act)              # nothing pending unless the action queues a response
+        elif hook == 'hcr_same':
+            t1 = mk_table(1, name=names[0], hcr=['after', 1, ['pass'], act])
+            steps.append(['client', wire(s2), s2, 'same'])
+        elif hook == 'hcd':
+            t1 = mk_table(1, name=names[0], buc=['drop'], hcd=rng.choice([act, ['after', 1, ['modify', b'zz'], act]]))
+            steps.append(['client', b'raw-1', None])
+            steps.append(['client', b'raw-2', None])
+        else:
+            t1 = mk_table(1, name=names[0], buc=act)
+        # afterwards: the upstream sends more, the client sends more, the socket becomes writable
+        after = [['upstream', b'MORE'], ['client', wire(s2)[:9], None], ['flush', rng.choice([3, 'block'])], ['upstream', b'EVEN-MORE'],
+                 ['flush', 100000], ['upstream', b'late']]
+        k = rng.choice([1, 2, 4, 6])
+        steps += ([after[0]] + rng.sample(after[1:4], min(k - 1, 3)) + after[4:][:max(0, k - 4)]) if k > 1 else [after[0]]
+        tables = [rec, t1]
+        rng.shuffle(tables)
+        out.append(dict(kind='run', basic_auth=b'user:pass' if auth else None, tables=tables, disable=[], steps=steps,
+                        end=rng.choice(DRAIN_ENDINGS), shutdown_error=rng.choice([None, None, 'ENOTCONN']),
+                        max_send=rng.choice([None, None, 16]), drain=hook + ':' + (act[1] if act[0] == 'raise' else 'reject')))
+    return out
 
 
 # ------------------------------------------------------------------ independent readers of byte streams (oracles)
